@@ -59,6 +59,14 @@ def apply_variant(sources: Dict[str, str], v: dict) -> Optional[Dict[str, str]]:
         from selftest.transforms import rename_module
 
         return {k: rename_module(t) for k, t in sources.items()}
+    if v.get("global") == "mirror":
+        from selftest.transforms import mirror_module
+
+        return {k: mirror_module(t) for k, t in sources.items()}
+    if v.get("global") == "flip-else":
+        from selftest.transforms import flip_else_module
+
+        return {k: flip_else_module(t) for k, t in sources.items()}
     if v.get("global") == "hoist":
         from selftest.transforms import hoist_module
 
@@ -156,6 +164,10 @@ def run_for(prop: str, seed: int = 0, jobs: int = 16) -> dict:
                      "note": "every function-local variable of every function without closures renamed (<name>_rn)"})
     variants.append({"property": prop, "id": "%s-extract-variables" % prop, "kind": "silent", "rule": None, "edits": [], "global": "hoist",
                      "note": "'extract variable' refactoring everywhere: non-trivial arguments of statement-level calls are computed into fresh locals first"})
+    variants.append({"property": prop, "id": "%s-mirror-comparisons" % prop, "kind": "silent", "rule": None, "edits": [], "global": "mirror",
+                     "note": "every comparison written the other way round (a < b -> b > a, a == b -> b == a)"})
+    variants.append({"property": prop, "id": "%s-flip-else" % prop, "kind": "silent", "rule": None, "edits": [], "global": "flip-else",
+                     "note": "every if/else with a plain else block written with the negated test and the arms swapped"})
     baseline = violations_of(prop, sources)
     # the self-test presupposes a tree on which the rules are silent (known findings aside); otherwise a rule that
     # raises a false alarm on the unmodified tree would hide behind the baseline
